@@ -16,8 +16,16 @@ pub const MAX_TABLES: usize = 3;
 pub const ENGINE_ID: u64 = 10;
 
 /// Slot value. Not `Copy`, so that moves/clones inside the generated code are real.
-#[derive(Clone, Debug, PartialEq, Eq, Hash, Default)]
+#[derive(Clone, Debug, PartialEq, Eq, Hash)]
 pub struct Val(pub u64);
+
+/// `Default` is deliberately not the all-zero value.
+pub const VAL_DEFAULT: u64 = 7_777;
+impl Default for Val {
+    fn default() -> Val {
+        Val(VAL_DEFAULT)
+    }
+}
 
 #[derive(Clone, Copy, Debug, PartialEq, Eq)]
 pub enum KeyPos {
@@ -402,7 +410,7 @@ impl<'a> Exec<'a> {
         self.trace.s(self.case.name);
         // every run starts with one table built by default()
         let first = catch(|| f.default()).map_err(|m| Failure { oracle: "panic", step: 0, op: None, expected: "no panic".into(), observed: m })?;
-        let mut slots = vec![Slot { real: first, model: vec![Val(0); n], writes: 0, last_written: None, parent: None }];
+        let mut slots = vec![Slot { real: first, model: vec![Val(VAL_DEFAULT); n], writes: 0, last_written: None, parent: None }];
         {
             let s0 = slots.remove(0);
             let r = self.check_slot(0, None, &s0);
@@ -454,7 +462,7 @@ impl<'a> Exec<'a> {
                 Op::Default(h) => {
                     let real = catch(|| f.default()).map_err(|m| fail("panic", "no panic".into(), m))?;
                     self.note(|| op.line());
-                    place(&mut slots, *h, Slot { real, model: vec![Val(0); n], writes: 0, last_written: None, parent: None });
+                    place(&mut slots, *h, Slot { real, model: vec![Val(VAL_DEFAULT); n], writes: 0, last_written: None, parent: None });
                 }
                 Op::FromClosure(h, base) => {
                     let seen = std::cell::RefCell::new(Vec::new());
